@@ -9,6 +9,7 @@ import (
 	"encoding/json"
 	"fmt"
 	"io"
+	"strconv"
 	"strings"
 	"unicode/utf8"
 )
@@ -109,6 +110,19 @@ func (c *Case) Bytes(k string) []byte { return UnHex(c.Str(k)) }
 
 func (c *Case) Int(k string) int64 {
 	return Num(c.Body[k])
+}
+
+// UNum reads an unsigned 64-bit number (anchoring times reach beyond the int64 range).
+func UNum(v interface{}) uint64 {
+	n, ok := v.(json.Number)
+	if !ok {
+		panic(fmt.Sprintf("proto: %v is not a number", v))
+	}
+	u, err := strconv.ParseUint(n.String(), 10, 64)
+	if err != nil {
+		panic(err)
+	}
+	return u
 }
 
 func (c *Case) Has(k string) bool { _, ok := c.Body[k]; return ok }
